@@ -42,7 +42,16 @@ func init() {
 
 type fper struct {
 	seen map[uintptr]bool
+	n    int64 // values visited
 }
+
+// globWork counts the values visited by fingerprints of package variables in the current
+// scenario; beyond globBudget no further fingerprints are taken (a change that hangs a large
+// table off a package variable makes each one expensive, and there is one per hand-over).
+// What was recorded until then still counts. A function of the scenario, not of the clock.
+var globWork int64
+
+const globBudget = 60_000_000
 
 func hashBytes(h uint64, b []byte) uint64 {
 	for _, c := range b {
@@ -62,6 +71,7 @@ func hashU(h, v uint64) uint64 {
 
 // hashValue folds the visible content of v into h. Slices contribute only [0,len).
 func (f *fper) hashValue(h uint64, v reflect.Value, depth int) uint64 {
+	f.n++
 	if depth > 40 {
 		return h
 	}
@@ -185,12 +195,16 @@ func spareSlots(v reflect.Value, path string, out map[string]uint64, depth int) 
 // "name+spare..." (a table of shared byte slices that callers append to is written beyond
 // the lengths everybody sees).
 func globalsSnapshot() map[string]uint64 {
+	if globWork > globBudget {
+		return nil
+	}
 	out := map[string]uint64{}
 	for name, p := range libraryGlobals() {
 		v := reflect.ValueOf(p)
 		if v.Kind() == reflect.Ptr && !v.IsNil() {
 			f := &fper{seen: map[uintptr]bool{}}
 			out[name] = f.hashValue(0xcbf29ce484222325, v.Elem(), 0)
+			globWork += f.n
 			func() {
 				defer func() { recover() }()
 				spareSlotsAll(v.Elem(), name+"+spare", out, 0)
@@ -734,6 +748,9 @@ func runC14(c *Ctx) *Replay {
 	}
 	sort.Strings(ops)
 	c.State("c14", strings.Join(ops, ","), strategy, sc.Extra["import"], fmt.Sprint(spare > 0), sc.Extra["trace_hash"])
+	if globWork > globBudget {
+		c.Count("global_fingerprint_budget_used_up", 1)
+	}
 	c.Count("switches", int64(len(sc.Switches)))
 	c.Count("yields", atoiDefault(sc.Extra["steps"], 0))
 	c.Count("sync_ops", atoiDefault(sc.Extra["sync_ops"], 0))
@@ -823,13 +840,29 @@ func (c *Ctx) shrinkConcurrent(sc *Scenario, v *Violation) *Replay {
 		return rp
 	}
 	budget := 120
+	if globWork > globBudget/8 {
+		// fingerprints of the package variables are expensive under this violation (a large
+		// table hangs off one of them): a few attempts only
+		budget = 4
+	}
 	try := func(cand Scenario) bool {
 		if budget <= 0 {
 			return false
 		}
 		budget--
 		cand.Extra["strategy"] = "plan"
-		nv := execConcurrent(c.N, &cand)
+		var nv *Violation
+		func() {
+			// a process whose shared state the violation has already corrupted may run away
+			// or panic while the scenario is executed again: the report then stays as it is
+			defer func() {
+				if r := recover(); r != nil {
+					budget = 0
+					simrt.DetachScheduler()
+				}
+			}()
+			nv = execConcurrent(c.N, &cand)
+		}()
 		if nv != nil && nv.Signature == v.Signature {
 			rp.Scenario = cand
 			rp.Violation = *nv
@@ -860,6 +893,8 @@ func execConcurrent(n *Node, sc *Scenario) *Violation {
 	if sc.Extra == nil {
 		sc.Extra = map[string]string{}
 	}
+	simrt.SetIdleLimit(400_000_000)
+	globWork = 0
 	delete(sc.Extra, "skipped")
 	var prog *BatchProg
 	for i := range n.Batch.Programs {
@@ -909,7 +944,10 @@ func execConcurrent(n *Node, sc *Scenario) *Violation {
 		// top-level attributes of BOTH kinds in one text: [opcode(...)] in front of records at
 		// the start, a [flags] enum at the very end (the parser never leaves flags mode)
 		cp := *prog
-		cp.Bop = "[opcode(\"AwK1\")]\nstruct AwkAttrA { int32 a; }\n[opcode(0x41774b32)]\nmessage AwkAttrB { 1 -> int32 a; }\n" + prog.Bop + "\n[flags]\nenum AwkAttrF { One = 1; Two = 2; Four = 4; }\n"
+		// (and records with one- and two-letter names, two of each keyword: headers short
+		// enough to be put together inside whatever small array a token brings along)
+		cp.Bop = "[opcode(\"AwK1\")]\nstruct AwkAttrA { int32 a; }\n[opcode(0x41774b32)]\nmessage AwkAttrB { 1 -> int32 a; }\n" +
+			"enum Zq { A = 1; }\nenum Zr { B = 2; }\nstruct Z { int32 a; }\nstruct Y { int32 b; }\nunion Zu { 1 -> struct Zv { int32 a; } }\nunion Zw { 1 -> struct Zx { int32 b; } }\nmessage X { 1 -> int32 a; }\nmessage W { 1 -> int32 b; }\n" + prog.Bop + "\n[flags]\nenum AwkAttrF { One = 1; Two = 2; Four = 4; }\n"
 		prog = &cp
 	}
 	// prelude: the complementary call (every option flipped) of each task, so that the
@@ -1133,6 +1171,9 @@ func execConcurrent(n *Node, sc *Scenario) *Violation {
 		}
 		spareCur = now
 		gnow := globalsSnapshot()
+		if gnow == nil {
+			return
+		}
 		for k, h := range gnow {
 			if globCur[k] != h {
 				key := "global:" + k
